@@ -47,6 +47,21 @@ def corpus():
     qb.sort(key=lambda ln: int(ln.split(" = ")[0]))
     texts["P"] = chart_text(res=192, song=['Name = "P"'], sync=sync, events=[], tracks={"ExpertSingle": pb})
     texts["Q"] = chart_text(res=192, song=['Name = "Q"'], sync=sync, events=[], tracks={"HardSingle": qb, "ExpertSingle": pb[:40]})
+    # R1: a [Song] section that repeats fields with other values (the first occurrence wins, whatever was parsed before);
+    # R2: an ordinary chart whose [Song] has the same fields exactly on the lines of R1's LATER occurrences; R3: like R2 but
+    # fails to parse (no tempo).  Whatever a parse remembers about WHERE it found something must not reach the next parse.
+    texts["R1"] = chart_text(res=None, song=['Name = "R"', "Resolution = 192", "Offset = 0", "Resolution = 480", "Offset = 7", 'Name = "later"',
+                                             "Player2 = bass", "Player2 = rhythm"], sync=sync, events=ev, tracks={"ExpertSingle": g_a})
+    texts["R2"] = chart_text(res=None, song=['Charter = "h"', 'Artist = "x"', 'Album = "y"', "Resolution = 100", "Offset = 3", 'Name = "H"',
+                                             'Genre = "g"', "Player2 = rhythm"], sync=sync, events=ev, tracks={"ExpertSingle": g_a[:5]})
+    texts["R3"] = chart_text(res=None, song=['Charter = "h"', 'Artist = "x"', 'Album = "y"', "Resolution = 100", "Offset = 3", 'Name = "H"',
+                                             'Genre = "g"', "Player2 = rhythm"], sync=["0 = TS 4"], events=ev, tracks={})
+    # S1 / S2: the same lines in [SyncTrack] and [Events] at other positions (tempo, meter and anchor lines interleaved the
+    # other way round; lyric / section / text events in another order at the same tick)
+    texts["S1"] = chart_text(res=192, song=['Name = "S"'], sync=["0 = TS 4", "0 = B 120000", "0 = A 0", "128 = B 90500", "128 = TS 3 3", "256 = B 60000"],
+                             events=['0 = E "section a"', '0 = E "lyric b"', '0 = E "c"', '64 = E "lyric d"'], tracks={"ExpertSingle": g_a})
+    texts["S2"] = chart_text(res=192, song=['Name = "S"'], sync=["0 = B 120000", "0 = A 0", "0 = TS 4", "128 = TS 3 3", "256 = B 60000", "128 = B 90500"][:5] + ["300 = B 60000"],
+                             events=['0 = E "c"', '0 = E "lyric b"', '0 = E "section a"', '64 = E "lyric d"'], tracks={"ExpertSingle": g_a})
     wants = {"As": [["DRUMS", "HARD"], ["KEYS", "EASY"]],
              "Ms": [["KEYS", "EXPERT"], ["GUITAR", "EASY"], ["BASS", "HARD"], ["GUITAR", "EXPERT"], ["DRUMS", "EXPERT"], ["GUITAR", "MEDIUM"]]}
     return texts, wants
@@ -157,6 +172,7 @@ def run(ctx):
         seq = th[sorted(th)[0]] if isinstance(th, dict) else th[0]
         if seq:
             seqs.append(seq)
+    seqs += [["R2", "R1"], ["R3", "R1"], ["R1", "R2", "R1"], ["R2", "R3", "R2", "R1", "R1"], ["R1", "R3", "R2"], ["S1", "S2", "S1"], ["S2", "S1"], ["A", "S2", "R1", "S1"]]
     seqs += [["Ms"], ["M"], ["Ms", "M", "Ms"], ["Ms"], ["Ms"], ["Ms"], ["Ms"], ["Ms"], ["M", "Ms"], ["Z", "A"], ["Z", "B", "A"], ["A", "Z", "A"], ["Z", "X", "Z", "A"], ["Z", "C", "D"], ["As", "A", "As"], ["A", "As"], ["X", "As", "A"], ["Y", "X", "Y", "A", "B", "A"], ["B", "A", "B", "A", "C", "D", "C"]]
     for _ in range(ctx.pick(40, 600)):
         seqs.append([r.choice(names) for _ in range(r.randrange(4, 9))])
